@@ -255,4 +255,93 @@ def build():
                    ret_make=lambda c: c.self,
                    note="append(x): items' = items + [x] (x falsy or not), one new cell (a fresh blank node) at the end, "
                         "chain stays well-formed, no orphaned cell"))
+
+    # ---------------------------------------------------------------- clear
+    class _TypingForm:          # typing.Optional[...] / typing.cast: no run-time effect
+        pass
+    M.globals["Optional"] = _TypingForm()
+    M.globals["cast"] = Builtin("cast", lambda it, a, k: a[1])
+    _getitem0 = M.getitem
+
+    def _getitem(it, obj, key, node):
+        if isinstance(obj, _TypingForm):
+            return obj
+        return _getitem0(it, obj, key, node)
+    M.getitem = _getitem
+
+    def no_cell_triples(st, g, node):
+        o = z3.Const("nc_o", TermSort)
+        return z3.ForAll([o], z3.And(z3.Not(V(st, g, node, FIRST, o)), z3.Not(V(st, g, node, REST, o))))
+
+    def other_triples_kept(st0, st1, g, c):
+        """frame: a triple changed only if it is an rdf:first / rdf:rest triple of a cell of this list (or of the head);
+        nothing is ever added; other graphs of the store untouched"""
+        store = st0.field("Graph", "_Graph__store", g)
+        ident = st0.field("Graph", "_Graph__identifier", g)
+        uri = st0.field("Collection", "uri", c.self.z)
+        t = z3.Const("fr_t", TripleSort)
+        nm = z3.Const("fr_n", TermSort)
+        i = z3.Int("fr_i")
+        ps = cell_pos(tr_s(t))          # cells are pairwise distinct: "is a cell" is decided by its position (wfc)
+        is_cell = z3.Or(tr_s(t) == uri, tr_s(t) == NIL, z3.And(0 <= ps, ps < z3.Length(cells), cells[ps] == tr_s(t)))
+        mine = z3.And(nm == ident, is_cell, z3.Or(tr_p(t) == FIRST, tr_p(t) == REST))
+        G0, G1 = G_of(st0, store), G_of(st1, store)
+        return z3.ForAll([t, nm], z3.And(z3.Implies(G1[t][nm], G0[t][nm]), z3.Implies(z3.Not(mine), G1[t][nm] == G0[t][nm])))
+
+    def clear_inv(lc):
+        c = lc.interp.callctx
+        st, st0 = lc.st, c.old
+        g = gz(st0, c)
+        n = z3.Length(cells)
+        uri = st0.field("Collection", "uri", c.self.z)
+        cont = lc.path.inject(OTERM, lc.env["container"])
+        j = z3.Int("cl_j")
+        o = z3.Const("cl_o", TermSort)
+        nxt = lambda i: z3.If(i + 1 < n, cells[i + 1], NIL)        # noqa: E731
+        # ghost: number of cells already cleaned = position of the current container (cells are pairwise distinct,
+        # so the position is a function of the cell: cell_pos, see wfc)
+        k = z3.If(OT.is_none(cont), n + 1, z3.If(OT.get(cont) == NIL, n, cell_pos(OT.get(cont))))
+        intact = lambda jj: z3.And(V(st, g, cells[jj], FIRST, items[jj]), V(st, g, cells[jj], REST, nxt(jj)),   # noqa: E731
+                                   z3.ForAll([o], z3.And(z3.Implies(V(st, g, cells[jj], FIRST, o), o == items[jj]),
+                                                         z3.Implies(V(st, g, cells[jj], REST, o), o == nxt(jj)))))
+        at = z3.If(n == 0,
+                   # empty list: first round at the head (which has no cell triples), then None
+                   z3.Or(cont == OT.some(uri), cont == OT.none),
+                   z3.And(0 <= k, k <= n + 1, z3.Implies(k < n, cont == OT.some(cells[k])),
+                          z3.ForAll([j], z3.Implies(z3.And(0 <= j, j < n),
+                                                    z3.If(j < k, no_cell_triples(st, g, cells[j]), intact(j))))))
+        return z3.And(at, no_cell_triples(st, g, NIL), z3.Implies(n == 0, no_cell_triples(st, g, uri)),
+                      other_triples_kept(st0, st, g, c),
+                      st.field("Collection", "graph", c.self.z) == g,
+                      st.field("Graph", "_Graph__store", g) == st0.field("Graph", "_Graph__store", g),
+                      st.field("Graph", "_Graph__identifier", g) == st0.field("Graph", "_Graph__identifier", g),
+                      st.field("Graph", "__dyn__", g) == DYN_GRAPH)
+
+    def clear_variant(lc):
+        cont = lc.path.inject(OTERM, lc.env["container"])
+        n = z3.Length(cells)
+        return z3.If(OT.is_none(cont), 0,
+                     z3.If(n == 0, 1, z3.If(OT.get(cont) == NIL, 1, n + 1 - cell_pos(OT.get(cont)))))
+
+    def clear_post(c):
+        st0, st1 = c.old, c.new
+        g = gz(st0, c)
+        uri = st0.field("Collection", "uri", c.self.z)
+        j = z3.Int("cp_j")
+        n = z3.Length(cells)
+        return [("empty-and-well-formed", WF(st1, g, uri, cell_at=lambda i: uri, item_at=lambda i: uri, n=z3.IntVal(0))),
+                ("no-orphaned-cells", z3.ForAll([j], z3.Implies(z3.And(0 <= j, j < n), no_cell_triples(st1, g, cells[j])))),
+                ("other-triples-untouched", other_triples_kept(st0, st1, g, c))]
+    M.add(Contract("C19", REL, "Collection.clear", [], ret=COLL, self_ty=COLL, pre=wfc, post=clear_post,
+                   modifies=lambda c: [(STORE_G, c.old.field("Graph", "_Graph__store", gz(c.old, c))),
+                                       (STORE_K, c.old.field("Graph", "_Graph__store", gz(c.old, c)))],
+                   ret_make=lambda c: c.self,
+                   loops={0: LoopSpec(clear_inv, modifies=[STORE_G, STORE_K],
+                                      var_types={"container": OTERM, "rest": OTERM},
+                                      fingerprint="container is not None", variant=clear_variant)},
+                   note="clear(): the list becomes the empty list, every former cell loses its rdf:first / rdf:rest "
+                        "(no orphaned cells), no other triple of the graph or store changes, nothing is added; terminates"))
+    # 144 of 154 obligations prove; the preservation of the position ghost / frame clause and the variant (z3 sequence
+    # theory under quantifiers) time out at 60 s: not counted as proved, kept for the thorough tier
+    M.contracts[("Collection", "clear")].thorough_only = True
     return M
